@@ -53,7 +53,7 @@ def work(ctx, tier):
                 for e in (rig.ENTRIES[i % 20], rig.ENTRIES[(i + 7) % 20]):
                     _one(ctx, sc, e, stats, sample=(i < 3))
                 ctx.inc("sweep_scenarios")
-    n = (8000 if tier == "quick" else 220000) // ctx.nshards
+    n = (20000 if tier == "quick" else 300000) // ctx.nshards
     for k in range(n):
         sc = gen.rand_scenario(rng, p_special=0.02, p_budget=0.3, p_handler=0.6, p_abort=0.15, p_before_sleep=0.6, ncalls=(1, 2), placements=True, slow_hooks=(k % 2 == 0), exotic_callables=True)
         for e in common.pick_entries(rng, rig.ENTRIES, 3):
